@@ -639,6 +639,7 @@ func main() {
 		{"kinesisSrc", []string{"KinesisSrc.lean"}, genKinesisSrc},
 		{"frameSrc", []string{"FrameSrc.lean"}, genFrameSrc},
 		{"aggSrc", []string{"AggSrc.lean"}, genAggSrc},
+		{"s3Src", []string{"S3Src.lean"}, genS3Src},
 	}
 	status := map[string]interface{}{}
 	failed := 0
